@@ -353,6 +353,8 @@ def query_overlap_of_other_tree(
 
         node_index = stack[-1]
         stack = stack[:-1]
+        if node_index == INDEX_NONE:  # empty tree
+            continue
 
         node_aabb = aabbs2[node_index]
         if (
@@ -386,6 +388,8 @@ def query_overlap(test_aabb, root_node_index, nodes, aabbs, break_at_first_leaf=
 
         node_index = stack[-1]
         stack = stack[:-1]
+        if node_index == INDEX_NONE:  # empty tree
+            continue
 
         node_aabb = aabbs[node_index]
         if aabb_overlap(node_aabb, test_aabb):
